@@ -8,7 +8,7 @@ def main(tier):
     # dependency graphs: attribute -> cached property -> cached property, '*' wildcard, managed attribute invalidated_by,
     # chain through a non-caching property, collection dependency (element helpers), dependants added by a subclass,
     # a frozen class (invalidation on the thawed copy), caches filled and a dependency assigned during __post_init__.
-    return _sc.run("C11", tier, ["c11_", "c05_", "c06_", "c04_"], names=NAMES, quick_pairs=30000, gen_only=lambda g: False,
+    return _sc.run("C11", tier, ["c11_", "c05_", "c06_", "c04_"], names=NAMES, quick_pairs=30000, thorough_pairs=150000, gen_only=lambda g: False,
                    need=("cow", "raised", "specified", "changed", "inplace"),
                    assumptions=["each getter reads exactly its declared dependencies; overrides are tracked by the model (ghost) because the instance dict does not distinguish them from caches",
                                 "states with filled caches / overrides are reached by constructor + overrides + reads; states that history does not reproduce are skipped (none in the current scenarios)"])
